@@ -1,5 +1,6 @@
 import Bclv.Props.C01
 import Bclv.Proofs.Group4
+import Bclv.Proofs.Group9
 /-!
 # C01, grouping clause, from source text
 
@@ -25,5 +26,21 @@ theorem accepted_tokens_read_as_their_tree (toks : List Token) (lfs : List Nat) 
     ∃ body e rest, toks = body ++ e :: rest ∧ e.typ.isEnd = true ∧
       RdProg (shapeSs (parseTokens toks lfs).prog.body) (typs body) :=
   parse_reads toks lfs hend hnf hok
+
+/-- **…and as no other**: with the side conditions on what may follow a statement (`RdProgF`:
+an expression is followed by a token that cannot continue it, `var x` not by `=`, a statement
+without `;` by the first token of the next), the token kinds of an accepted text read as the
+shape of the program tree and as no other shape. -/
+theorem accepted_source_has_one_reading (a : Bytes)
+    (hok : (parseTokens (lexWhole a) (newlinesFrom 0 a)).ok = true) :
+    ∃ body e, lexWhole a = body ++ [e] ∧ e.typ = .EOF ∧
+      RdProgF (shapeSs (parseTokens (lexWhole a) (newlinesFrom 0 a)).prog.body) (typs body) .EOF ∧
+      ∀ ss', RdProgF ss' (typs body) .EOF → ss' = shapeSs (parseTokens (lexWhole a) (newlinesFrom 0 a)).prog.body :=
+  source_reads_unique a hok
+
+/-- a token list reads as at most one program shape -/
+theorem program_reading_unique (ss ss' : ShSs) (ts : List TokType) (c : TokType)
+    (h : RdProgF ss ts c) (h' : RdProgF ss' ts c) : ss = ss' :=
+  reading_of_program_unique ss ss' ts c h h'
 
 end Bclv.C01
